@@ -715,13 +715,17 @@ class Run:
         shutil.rmtree(rb, ignore_errors=True)
 
     def result(self):
-        digest = fpc([self.events, self.violations, self.known_hits])
-        sched = [[{k: (v[:2] if k == 'outcome' else v)
-                   for k, v in e.items()} for e in self.events],
-                 [[v['oracle'], v['step'], v['fmt']]
-                  for v in self.violations + self.known_hits]]
+        # the run digest (determinism self-test) covers everything the
+        # harness decides and every outcome class, but no free text: message
+        # texts and the seam trace may legitimately carry run-specific detail
+        # (e.g. the random name of a temporary file used by an atomic writer)
+        digest = fpc([[{k: (v[:2] if k == 'outcome' else v)
+                        for k, v in e.items() if k != 'trace'}
+                       for e in self.events],
+                      [[v['oracle'], v['step'], v['fmt']]
+                       for v in self.violations + self.known_hits]])
         return {'seed': self.plan['seed'], 'index': self.plan.get('index'),
-                'schedule_digest': fpc(sched),
+                'schedule_digest': digest,
                 'events': self.events, 'violations': self.violations,
                 'known_hits': self.known_hits, 'stats': self.stats,
                 'digest': digest}
